@@ -1,6 +1,7 @@
 // C16 (misc part): ErrorComputer / function integral jobs, TraceAssembler (boundary mass, boundary functionals, discrete
 // surface integral), UnitFilterAssembler, against the harness polynomial integrator (volume and boundary).
 #include <c16_core.hpp>
+#include <c16_boundary.hpp>
 
 #include <kernel/assembly/asm_traits.hpp>
 #include <kernel/assembly/bilinear_operator_assembler.hpp>
@@ -31,132 +32,6 @@ namespace
   struct EL1 { static const char* name() { return "lagrange1"; } template<typename T_> using Space = FEAT::Space::Lagrange1::Element<T_>; static constexpr int pk = 1; static constexpr int deg = 1; static constexpr bool has_hess = false; static constexpr bool nodal = true; };
   struct EL2 { static const char* name() { return "lagrange2"; } template<typename T_> using Space = FEAT::Space::Lagrange2::Element<T_>; static constexpr int pk = 2; static constexpr int deg = 2; static constexpr bool has_hess = true; static constexpr bool nodal = true; };
   struct ECR { static const char* name() { return "cro_rav_ran_tur"; } template<typename T_> using Space = FEAT::Space::CroRavRanTur::Element<T_>; static constexpr int pk = 1; static constexpr int deg = 2; static constexpr bool has_hess = false; static constexpr bool nodal = false; };
-
-  /// harness description of the boundary: facets with exactly one adjacent cell, vertex coordinates in facet order
-  template<typename Shape_>
-  struct Boundary
-  {
-    static constexpr int D = Shape_::dimension;
-    typedef typename Shape::FaceTraits<Shape_, D - 1>::ShapeType FacetShape;
-    typedef ShapeInfo<FacetShape> FI;
-    struct Facet { std::vector<std::array<LD, D>> x; };
-    std::vector<Facet> facets;
-    bool planar = true;
-
-    explicit Boundary(const typename MeshCtx<Shape_>::MeshType& mesh)
-    {
-      const auto& vs = mesh.get_vertex_set();
-      const auto& vc = mesh.template get_index_set<D, 0>();
-      std::map<std::set<Index>, std::pair<int, std::vector<Index>>> cnt;
-      for(Index k = 0; k < mesh.get_num_entities(D); ++k)
-        for(int f = 0; f < num_local_faces<Shape_>(D - 1); ++f)
-        {
-          std::vector<Index> ov; std::set<Index> key;
-          for(int l : local_face_vertices<Shape_>(D - 1, f)) { ov.push_back(vc(k, l)); key.insert(vc(k, l)); }
-          auto& e = cnt[key];
-          e.first++; e.second = ov;
-        }
-      for(auto& kv : cnt)
-      {
-        if(kv.second.first != 1) continue;
-        Facet fc;
-        for(Index v : kv.second.second) { std::array<LD, D> x; for(int j = 0; j < D; ++j) x[(size_t)j] = LD(vs[v][j]); fc.x.push_back(x); }
-        if(D == 3 && !FI::is_simplex)
-        {
-          // parallelogram test: x0 + x3 == x1 + x2
-          for(int j = 0; j < D; ++j) if(std::fabs(fc.x[0][(size_t)j] + fc.x[3][(size_t)j] - fc.x[1][(size_t)j] - fc.x[2][(size_t)j]) > LD(1e-14)) planar = false;
-        }
-        facets.push_back(fc);
-      }
-    }
-
-    /// point of facet f at facet reference coordinates t and the surface element there
-    void eval(const Facet& f, const std::array<LD, D - 1>& t, std::array<LD, D>& x, LD& ds) const
-    {
-      constexpr int d = D - 1;
-      LD J[D][d > 0 ? d : 1];
-      for(int i = 0; i < D; ++i) { x[(size_t)i] = 0; for(int a = 0; a < d; ++a) J[i][a] = 0; }
-      if constexpr(FI::is_simplex)
-      {
-        for(int i = 0; i < D; ++i)
-        {
-          x[(size_t)i] = f.x[0][(size_t)i];
-          for(int a = 0; a < d; ++a) { LD e = f.x[(size_t)(a + 1)][(size_t)i] - f.x[0][(size_t)i]; x[(size_t)i] += t[(size_t)a] * e; J[i][a] = e; }
-        }
-      }
-      else
-      {
-        for(int v = 0; v < FI::NV; ++v)
-        {
-          LD N = 1, dN[2] = {1, 1};
-          for(int a = 0; a < d; ++a)
-          {
-            LD s = FI::ref_coord(v, a);
-            N *= (1 + s * t[(size_t)a]) / 2;
-            for(int b = 0; b < d; ++b) dN[b] *= (a == b) ? s / 2 : (1 + s * t[(size_t)a]) / 2;
-          }
-          for(int i = 0; i < D; ++i) { x[(size_t)i] += N * f.x[(size_t)v][(size_t)i]; for(int a = 0; a < d; ++a) J[i][a] += dN[a] * f.x[(size_t)v][(size_t)i]; }
-        }
-      }
-      if constexpr(d == 1) { LD s = 0; for(int i = 0; i < D; ++i) s += J[i][0] * J[i][0]; ds = std::sqrt(s); }
-      else
-      {
-        LD g00 = 0, g01 = 0, g11 = 0;
-        for(int i = 0; i < D; ++i) { g00 += J[i][0] * J[i][0]; g01 += J[i][0] * J[i][1]; g11 += J[i][1] * J[i][1]; }
-        ds = std::sqrt(g00 * g11 - g01 * g01);
-      }
-    }
-
-    /// integral of a polynomial over the boundary (exact for straight edges / planar parallelogram or triangle faces)
-    LD integrate(const Poly<D>& p, LD* abs_scale = nullptr) const
-    {
-      auto q = ref_quadrature<FacetShape>(p.degree() + 2);
-      LD s = 0, sa = 0;
-      for(auto& f : facets)
-        for(size_t iq = 0; iq < q.pts.size(); ++iq)
-        {
-          std::array<LD, D> x; LD ds;
-          eval(f, q.pts[iq], x, ds);
-          s += q.wts[iq] * ds * p.eval(x);
-          sa += q.wts[iq] * ds * p.eval_abs(x);
-        }
-      if(abs_scale) *abs_scale = sa;
-      return s;
-    }
-
-    /// is x on the boundary? (straight / planar facets)
-    bool contains(const std::array<LD, D>& x) const
-    {
-      for(auto& f : facets)
-      {
-        // least squares parameters w.r.t. the edge vectors from vertex 0
-        constexpr int d = D - 1;
-        LD e[2][D], r[D];
-        for(int i = 0; i < D; ++i) { r[i] = x[(size_t)i] - f.x[0][(size_t)i]; for(int a = 0; a < d; ++a) e[a][i] = f.x[(size_t)(a == 0 ? 1 : 2)][(size_t)i] - f.x[0][(size_t)i]; }
-        LD s = 0, t = 0;
-        if constexpr(d == 1)
-        {
-          LD ee = 0, er = 0; for(int i = 0; i < D; ++i) { ee += e[0][i] * e[0][i]; er += e[0][i] * r[i]; }
-          s = er / ee;
-        }
-        else
-        {
-          LD a00 = 0, a01 = 0, a11 = 0, b0 = 0, b1 = 0;
-          for(int i = 0; i < D; ++i) { a00 += e[0][i] * e[0][i]; a01 += e[0][i] * e[1][i]; a11 += e[1][i] * e[1][i]; b0 += e[0][i] * r[i]; b1 += e[1][i] * r[i]; }
-          LD det = a00 * a11 - a01 * a01;
-          s = (b0 * a11 - b1 * a01) / det; t = (a00 * b1 - a01 * b0) / det;
-        }
-        LD res = 0;
-        for(int i = 0; i < D; ++i) { LD v = r[i] - s * e[0][i] - (d == 2 ? t * e[1][i] : LD(0)); res += v * v; }
-        if(res > LD(1e-20)) continue;
-        const LD tol = LD(1e-10);
-        bool in = (s >= -tol && t >= -tol);
-        if(FI::is_simplex) in = in && (s + t <= 1 + tol); else in = in && (s <= 1 + tol) && (t <= 1 + tol);
-        if(in) return true;
-      }
-      return false;
-    }
-  };
 
   template<typename Shape_, typename El_>
   struct MiscChecker
